@@ -5,6 +5,7 @@
 # License: http://snmplabs.com/pyasn1/license.html
 #
 import os
+import sys
 
 from pyasn1 import debug
 from pyasn1 import error
@@ -1706,6 +1707,10 @@ class SingleItemDecoder(object):
 
                 else:  # 128 means indefinite
                     length = -1
+
+                if length > sys.maxsize:
+                    raise error.PyAsn1Error(
+                        'Length %d at %s exceeds platform limits' % (length, tagSet))
 
                 if length == -1 and not self.supportIndefLength:
                     raise error.PyAsn1Error('Indefinite length encoding not supported by this codec')
